@@ -139,3 +139,40 @@ func VxC15SnapshotStamp() {
 		}
 	}
 }
+
+// VxC15Restore: the whole Replica.Restore with a timestamp on a replica where a
+// snapshot was uploaded ahead of the level-0 file of the same transaction
+// (DB.Snapshot uploads straight from the database; the level-0 upload may lag or
+// never happen). The restored pages are those of the last transaction replicated
+// before T, whatever else the replica holds.
+func VxC15Restore() {
+	c := &vxStoreClient{}
+	t := [6]uint64{vx.U64("tag"), vx.U64("tag"), vx.U64("tag"), vx.U64("tag"), vx.U64("tag"), vx.U64("tag")}
+	put := func(f *vxLTX, sec uint64) {
+		c.put(f)
+		c.files[len(c.files)-1].CreatedAt = vxAt(sec)
+	}
+	// TXID 1 at second 10 (snapshot), TXID 2 at second 20, TXID 3 at second 30
+	put(&vxLTX{level: SnapshotLevel, min: 1, max: 1, commit: 2, ts: 10000, pages: []vxPg{{1, t[0]}, {2, t[1]}}}, 10)
+	put(&vxLTX{level: 0, min: 1, max: 1, commit: 2, ts: 10000, pages: []vxPg{{1, t[0]}, {2, t[1]}}}, 10)
+	put(&vxLTX{level: 0, min: 2, max: 2, commit: 2, ts: 20000, pages: []vxPg{{1, t[2]}}}, 20)
+	// the newest transaction: its snapshot is on the replica, its level-0 file may not be
+	put(&vxLTX{level: SnapshotLevel, min: 1, max: 3, commit: 2, ts: 30000, pages: []vxPg{{1, t[3]}, {2, t[4]}}}, 30)
+	if vx.Fault("level0Uploaded") {
+		put(&vxLTX{level: 0, min: 3, max: 3, commit: 2, ts: 30000, pages: []vxPg{{1, t[3]}, {2, t[4]}}}, 30)
+	}
+	T := vx.Choose("T", 5, 35)
+	out := vx.TempDir() + "/restore/db"
+	r := NewReplicaWithClient(nil, c)
+	err := r.Restore(context.Background(), RestoreOptions{OutputPath: out, IntegrityCheck: IntegrityCheckNone, Timestamp: vxAt(uint64(T))})
+	switch {
+	case T <= 10:
+		vx.Assert("T-before-first-backup-fails", err != nil && !vx.FSExists(out))
+	case T <= 20:
+		vx.Assert("restores-state-before-T", err == nil && vxDBEquals(out, []uint64{t[0], t[1]}))
+	case T <= 30:
+		vx.Assert("restores-state-before-T", err == nil && vxDBEquals(out, []uint64{t[2], t[1]}))
+	default:
+		vx.Assert("restores-state-before-T", err == nil && vxDBEquals(out, []uint64{t[3], t[4]}))
+	}
+}
